@@ -5,7 +5,8 @@
      while (cur < end && retries < 3) {
          size_t remaining = end - cur;
          ssize_t written = pwrite(file->fid, cur, remaining, offset);
-         if (written < 0) { CHECK_POSIX(errno); }          -> return 0
+         if (written < 0) { CHECK_POSIX(errno); }          -> return 0   (whatever the value of errno: EIO, ENOSPC,
+                                                                             EAGAIN, EINTR, EBADF are all treated alike)
          retries += (written == 0);
          offset += written;  cur += written;
      }
@@ -32,17 +33,20 @@ Fixpoint write_at (f : file) (off : nat) (d : list byte) : file :=
 Definition pwrite_file (f : file) (off : nat) (d : list byte) : file :=
   match d with [] => f | _ => write_at f off d end.
 
+(* the error numbers a failing pwrite may report (the fault model of the check draws from exactly these) *)
+Inductive errno := EIO | ENOSPC | EAGAIN | EINTR | EBADF.
+
 (* what the operating system answers to one pwrite call *)
 Inductive wresp :=
 | WFull                 (* everything that was asked for *)
 | WCount (c : nat)      (* min c remaining bytes (0 = a zero-length result) *)
-| WErr.                 (* -1, errno set *)
+| WErr (e : errno).     (* -1, errno = e *)
 
 Definition deliver (r : wresp) (remaining : nat) : option nat :=
   match r with
   | WFull => Some remaining
   | WCount c => Some (Nat.min c remaining)
-  | WErr => None
+  | WErr _ => None          (* the code looks at errno only to log it: every failure ends the loop *)
   end.
 
 Section Loop.
@@ -96,3 +100,14 @@ Fixpoint delivers (ws : nat -> wresp) (k remaining : nat) (pat : list nat) : Pro
   end.
 
 Definition zeros (pat : list nat) : nat := count_occ Nat.eq_dec pat 0.
+
+(* two answers that differ at most in the error number of a failure *)
+Definition same_shape (a b : wresp) : Prop :=
+  match a, b with
+  | WFull, WFull => True
+  | WCount c, WCount c' => c = c'
+  | WErr _, WErr _ => True
+  | _, _ => False
+  end.
+(* two write scripts that fail the same calls (transiently or persistently), possibly with other error numbers *)
+Definition errno_variant (ws ws' : nat -> wresp) : Prop := forall k, same_shape (ws k) (ws' k).
